@@ -237,6 +237,15 @@ func aberrantLoadMessageDescReentrant(t reflect.Type, name protoreflect.FullName
 		}
 	}
 
+	// Pointers to the elements of these lists are retained below (oneof
+	// members, containing oneofs, map entry messages), so the lists must not
+	// be reallocated while they grow. Every struct field adds at most one
+	// field, oneof or map entry message; every oneof wrapper adds one field.
+	numFields := t.Elem().NumField()
+	md.L2.Fields.List = make([]filedesc.Field, 0, numFields+len(oneofWrappers))
+	md.L2.Oneofs.List = make([]filedesc.Oneof, 0, numFields)
+	md.L1.Messages.List = make([]filedesc.Message, 0, numFields)
+
 	// Derive the message fields by inspecting the struct fields.
 	for i := 0; i < t.Elem().NumField(); i++ {
 		f := t.Elem().Field(i)
